@@ -1099,11 +1099,13 @@ func partS(c *ev.Ctx) {
 				for _, verSel := range []string{"none", "current", "older-of-this-lifetime", "previous-lifetime"} {
 					srv, be := mk()
 					var prev, cur, older lifetime
+					past := map[string]bool{} // the UID of every lifetime so far
 					create := func() lifetime {
 						rsp, err := srv.Write(ctx, &pbresource.WriteRequest{Resource: artist("", "", "seed")})
 						if err != nil {
 							panic(err)
 						}
+						past[rsp.Resource.Id.Uid] = true
 						return lifetime{rsp.Resource.Id.Uid, rsp.Resource.Version}
 					}
 					update := func(l lifetime) lifetime {
@@ -1175,6 +1177,9 @@ func partS(c *ev.Ctx) {
 						c.Violate(fmt.Sprintf("C18:service-%s-refused-although-current", kind), desc, rp)
 					case !changed && !allowed && err == nil && exists && verSel != "none" && uidSel != "previous":
 						c.Violate(fmt.Sprintf("C18:service-%s-with-stale-version-reports-success", kind), desc, rp)
+					}
+					if before == nil && after != nil && past[after.Id.Uid] {
+						c.Violate("C18:service-write-recreated-the-resource-under-the-uid-of-an-earlier-lifetime:uid="+uidSel, desc, rp)
 					}
 					if after != nil && before != nil && after.Id.Uid != before.Id.Uid && kind == "write" {
 						c.Violate("C18:service-write-changed-uid-within-a-lifetime", desc, rp)
